@@ -546,7 +546,7 @@ def run(ctx):
     stage_history(ctx)
     wholerun_oracle(ctx)
     ctx.assumptions.append("costs integer-valued (exact in float arithmetic); repair cost lists sampled by random.choice are inputs")
-    ctx.assumptions.append("model follows /repo after the fix: commits listed in findings.d/C10.json")
+    ctx.assumptions.append("model follows /repo after the fix: commits listed in known_findings.json (entries of C10)")
 
 
 def replay(ctx, data):
